@@ -11,7 +11,7 @@ section
 variable {α : Type} [Add α] [Sub α] [Mul α] [Div α] [Neg α] [LT α] [LE α]
   [DecidableLT α] [DecidableLE α] [OfNat α 0] [OfNat α 1] [OfNat α 2] [OfNat α 4] [Fns α]
 
-namespace AGP
+namespace AGP.Ctl
 
 /-! ### what `prepare` and `commit` do to the counters -/
 
@@ -117,9 +117,9 @@ theorem prepare_error_fields {p : Params α} {s s' : State α} {e : Raise} (h : 
   all_goals cases h
   all_goals simp [hf]
 
-end AGP
+end AGP.Ctl
 namespace Proc
-open AGP
+open AGP AGP.Ctl
 
 /-! ### accessors (what `GetResults` / the method report) -/
 
